@@ -41,6 +41,15 @@ def build_shape(rng):
         outer_nodes += wide_graph(rng, f"s{lvl}", rng.randint(1, 3))
         rng.shuffle(outer_nodes)
         g = {"nodes": outer_nodes, "bound": {}, "entrypoints": None, "selected": None}
+    if rng.random() < 0.25:
+        # sibling nested graphs that each hold an interrupt whose ASYNC handler answers by itself: handlers are node functions too
+        for j in range(rng.randint(2, 3)):
+            inner = {"nodes": [{"name": f"ask{j}", "kind": "interrupt", "inputs": ["x"], "outputs": [f"ans{j}"], "emit": [], "wait_for": [], "defaults": {},
+                                "fn": ["const", 40 + j], "async_handler": True}],
+                     "bound": {}, "entrypoints": None, "selected": None, "name": f"rev{j}_g"}
+            g["nodes"].append({"name": f"rev{j}", "kind": "graph", "graph": inner, "inputs": [], "outputs": [], "in_hist": [], "out_hist": []})
+        rng.shuffle(g["nodes"])
+        return g, {"x": rng.randint(0, 3)}, None, {"depth": depth, "kind": "interrupt_handlers"}
     kind = rng.choice(["run", "run", "topmap", "mapnode"])
     inputs = {"x": rng.randint(0, 3)}
     run_map = None
@@ -211,7 +220,7 @@ def run(ctx):
     ctx.coverage.update(
         evaluations=n_eval, distinct_nontrivial=len(nontrivial),
         rule="graphs of 2-4 independent leaves + join, nested 0-3 levels with further parallel leaves at each level (20% of the leaves are plain "
-             "functions returning a coroutine), run directly, through runner.map (fan-out 2-5) or through a mapping node; k in 1..4 (1..3 "
+             "functions returning a coroutine; a quarter of the shapes add 2-3 sibling nested graphs whose interrupt has an async self-answering handler), run directly, through runner.map (fan-out 2-5) or through a mapping node; k in 1..4 (1..3 "
              "quick); bodies held open by an adversarial scheduler; plus histories awaited in ONE task (a limited run that fails, then a run with a "
              "smaller limit) and maps in continue mode with an item failing in output unpacking; non-trivial = (shape, k) with unlimited width > k",
         distribution=dist, samples=samples)
